@@ -23,6 +23,8 @@ def jobs(tier, seed):
             for mut in MUTATIONS:
                 out.append({"kind": "concurrent", "flavour": fl, "ext": ext, "mut": mut, "seed": seed, "nodes": 3 if q else 6})
     out.append({"kind": "stress", "seed": seed, "rounds": 6 if q else 40})
+    for fl in ("sync", "async"):
+        out.append({"kind": "unwritable", "flavour": fl, "seed": seed})
     return out
 
 
@@ -306,6 +308,42 @@ def run_oserror(job, res):
         shutil.rmtree(tmp, ignore_errors=True)
 
 
+def run_unwritable(job, res):
+    """A scheduled save that cannot write at all (the directory is away for a moment: volume not mounted, directory being
+    swapped by a backup job): nothing is written and nothing raises, so the state must stay marked unsaved, the schedule
+    must go on and the next tick / stop() must persist the current state."""
+    flavour = job["flavour"]
+    tmp0 = tempfile.mkdtemp(prefix="vf-c15-")
+    tmp = os.path.join(tmp0, "data")
+    os.mkdir(tmp)
+    try:
+        for ext in ("json", "pickle"):
+            for how in ("dir-away", "dir-replaced-by-file"):
+                for variant in ({}, {"quiet": True}, {"quiet": True, "stop_directly": True}, {"shrink": True}):
+                    case = {"kind": "unwritable", "flavour": flavour, "ext": ext, "what": f"unwritable:{how}",
+                            "desc": f"a scheduled {ext} save while the directory is not there ({how})"}
+
+                    def fault(pg, how=how):
+                        away = tmp + ".away"
+                        os.rename(tmp, away)
+                        if how == "dir-replaced-by-file":
+                            with open(tmp, "w") as fh:
+                                fh.write("x")
+                        try:
+                            pg.tick()
+                        finally:
+                            if os.path.isfile(tmp):
+                                os.remove(tmp)
+                            os.rename(away, tmp)
+                        return {"fired": lambda: True, "failed": True}
+                    res.evals += 1
+                    scenario(res, flavour, ext, tmp, fault, dict(case, **variant))
+                    res.count("unwritable_ticks")
+                    res.nontrivial((flavour, ext, how, tuple(variant)))
+    finally:
+        shutil.rmtree(tmp0, ignore_errors=True)
+
+
 def run_concurrent(job, res):
     from ..persist import PGateway
 
@@ -427,7 +465,7 @@ def run_stress(job, res):
 def run(job):
     res = Result()
     install_save_recorder()
-    {"oserror": run_oserror, "concurrent": run_concurrent, "stress": run_stress}[job["kind"]](job, res)
+    {"oserror": run_oserror, "concurrent": run_concurrent, "stress": run_stress, "unwritable": run_unwritable}[job["kind"]](job, res)
     return res
 
 
@@ -435,6 +473,8 @@ def replay(case):
     res = Result()
     if case["kind"] == "oserror":
         r = run({"kind": "oserror", "flavour": case["flavour"], "ext": case["ext"], "seed": 0})
+    elif case["kind"] == "unwritable":
+        r = run({"kind": "unwritable", "flavour": case["flavour"], "seed": 0})
     elif case["kind"] == "concurrent":
         r = run({"kind": "concurrent", "flavour": case["flavour"], "ext": case["ext"], "mut": case["mut"], "seed": 0, "nodes": case.get("nodes", 3)})
     else:
@@ -458,7 +498,7 @@ def finish(agg, tier):
                 "(flavour, format, fault kind, position, mutation).",
         "floors": [("faulty_ticks", c.get("faulty_ticks", 0), 1500), ("failed_saves", c.get("failed_saves", 0), 300),
                    ("healing_ticks_judged", c.get("healing_ticks_judged", 0), 300), ("stops_judged", c.get("stops_judged", 0), 1000),
-                   ("quiet_variants", c.get("quiet_variants", 0), 200)],
+                   ("quiet_variants", c.get("quiet_variants", 0), 200), ("unwritable_ticks", c.get("unwritable_ticks", 0), 30)],
         "assumptions": ["concurrent mutation is produced synchronously at write points: a deterministic stand-in for the poll thread "
                         "running while the timer thread (or executor) serialises",
                         "a save that completes while a concurrent update slipped in is outside the statement (not judged)"],
